@@ -95,6 +95,7 @@ type Scenario struct {
 	MockErrs   bool          `json:"mockerrs,omitempty"` // the store words its refusals like the package's mock
 	BareSeq    bool          `json:"bareseq,omitempty"`  // a refused Create is the server's bare "wrong last sequence" error
 	YieldLog   int           `json:"yieldlog,omitempty"` // k > 0: the configured Logger yields the processor on every k-th record (a log sink that takes a moment)
+	SlowAll    time.Duration `json:"slowall,omitempty"`  // > 0: the sink takes up to this long over every record, whatever its level and whoever leads (when no mutex of the election is held); the trace is then checked for order, not for time
 	SlowLog    time.Duration `json:"slowlog,omitempty"`  // > 0: the configured Logger takes up to this long over a warning or error record (a synchronous sink), when no mutex of the election is held
 	MaxLat     time.Duration `json:"maxlat"`             // promised bound on the latency of every answered operation (0 = no promise)
 	FaultsEnd  time.Duration `json:"faultsend"`          // no injected fault, partition or lost watch event after this instant (0 = there are none at all)
@@ -179,6 +180,7 @@ type yieldLogger struct {
 	// that sleeps while it holds a mutex others are waiting for stalls virtual time, so the sink takes its time only when
 	// every mutex of the election is free at that moment (the library logs inside its critical sections, too).
 	slow  time.Duration
+	all   time.Duration
 	locks func() []sync.Locker
 	// (only while the instance neither leads nor is being stopped: every bound on how fast a leader reacts, or a stop
 	// call returns, is stated for code that takes no time; a sink that delays them by its own latency only shifts the bounds)
@@ -189,6 +191,12 @@ func (l *yieldLogger) rec(serious bool) {
 	k := l.n.Add(1)
 	if l.every > 0 && k%l.every == 0 {
 		runtime.Gosched()
+	}
+	if l.all > 0 && l.locks != nil {
+		if l.free() {
+			time.Sleep(time.Millisecond + time.Duration(uint64(mix(k, 37))%uint64(l.all)))
+		}
+		return
 	}
 	if serious && l.slow > 0 && l.locks != nil && (l.leads == nil || !l.leads()) {
 		var held []sync.Locker
@@ -209,6 +217,24 @@ func (l *yieldLogger) rec(serious bool) {
 		}
 	}
 }
+// free reports whether every mutex of the election can be taken right now (and releases them again).
+func (l *yieldLogger) free() bool {
+	var held []sync.Locker
+	ok := true
+	for _, m := range l.locks() {
+		if t, is := m.(interface{ TryLock() bool }); is && t.TryLock() {
+			held = append(held, m)
+		} else {
+			ok = false
+			break
+		}
+	}
+	for _, m := range held {
+		m.Unlock()
+	}
+	return ok
+}
+
 func (l *yieldLogger) Debug(string, ...zap.Field) { l.rec(false) }
 func (l *yieldLogger) Info(string, ...zap.Field)  { l.rec(false) }
 func (l *yieldLogger) Warn(string, ...zap.Field)  { l.rec(true) }
@@ -499,8 +525,8 @@ func runScenario(t *testing.T, sc *Scenario) (res *ScenarioResult) {
 				cfg.HealthChecker = scriptedHealth{rt}
 			}
 			var ylog *yieldLogger
-			if sc.YieldLog > 0 || sc.SlowLog > 0 {
-				ylog = &yieldLogger{every: int64(sc.YieldLog), slow: sc.SlowLog}
+			if sc.YieldLog > 0 || sc.SlowLog > 0 || sc.SlowAll > 0 {
+				ylog = &yieldLogger{every: int64(sc.YieldLog), slow: sc.SlowLog, all: sc.SlowAll}
 				cfg.Logger = ylog
 			}
 			var prov leader.JetStreamProvider
@@ -525,7 +551,7 @@ func runScenario(t *testing.T, sc *Scenario) (res *ScenarioResult) {
 				continue
 			}
 			rt.el = el
-			if ylog != nil && ylog.slow > 0 {
+			if ylog != nil && (ylog.slow > 0 || ylog.all > 0) {
 				ms := libraryMutexes(el)
 				if len(ms) > 0 {
 					ylog.locks = func() []sync.Locker { return ms }
@@ -544,6 +570,9 @@ func runScenario(t *testing.T, sc *Scenario) (res *ScenarioResult) {
 			return 0
 		}
 		tr.headerf("hyp %d %d %d %d %d %d %d", b2i(sc.Responsive), b2i(sc.NoOutside), b2i(sc.NoPreempt), b2i(sc.FaultFree), b2i(sc.ConnOnly), int64(sc.MaxLat), int64(sc.FaultsEnd))
+		if sc.SlowAll > 0 {
+			tr.headerf("slowsink")
+		}
 		var apiSeq int32
 		for _, rt := range rts {
 			if rt != nil {
